@@ -166,6 +166,12 @@ static void far_section(void) {
     munmap(map, maplen);
 }
 
+#ifndef NO_HYGIENE
+#define HYG_BITSTREAM 1
+#include "hygiene.h"
+#include "hygiene_gen.h"
+#endif
+
 int main(int argc, char **argv) {
     vh_init(argc, argv);
     vh_sandbox_init();
@@ -254,6 +260,12 @@ int main(int argc, char **argv) {
         }
     }
     far_section();
+#ifndef NO_HYGIENE
+    if (vh_section_begin("macro_hygiene") && vh_case()) {
+        hygiene_bitstream();
+        vh_count("cases", 1);
+    }
+#endif
     /* signed helpers */
     if (vh_section_begin("signed")) {
         for (size_t w = 2; w <= 64; w++) {
